@@ -248,6 +248,20 @@ SPECS["C06"] = dict(
     ],
 )
 
+SPECS["C15"] = dict(
+    title="Close releases goroutines and callbacks; pooled buffers have one owner",
+    level="exploration",
+    technique="rapid-generated close scripts (point in history x permutation of Close calls x gaps x never-accepted peers) in a synctest bubble with a goroutine census and scheduler-callback census after 10 virtual minutes; buffer-pool sanitizer (quarantine + poison, LIFO reuse) under generated lossy FEC traffic with content and wire oracles",
+    level_text="TODO",
+    level_note="TODO",
+    design_ref="5/C15",
+    rule="TODO",
+    jobs=[
+        rapid("TestC15Close", 350, 10000, sq=4, st=16),
+        rapid("TestC15Pool", 250, 8000, sq=4, st=16),
+    ],
+)
+
 NOTES = ("Every check is `./check <id> quick|thorough`; it rebuilds the harness against /repo's working tree with -tags verif, "
          "runs rapid / enumeration jobs in parallel shards seeded from VERIF_SEED, writes evidence/<id>.json, prints "
          "KNOWN-FINDING lines for entries of known_findings.jsonl that still reproduce, and exits 1 with a VIOLATION line otherwise. "
